@@ -460,6 +460,7 @@ func build(tier string) []*venum.Check {
 		out = append(out, typeCheck(n))
 	}
 	out = append(out, primitiveCheck(), lengthPrefixCheck(), sequenceCheck())
+	out = append(out, grammarCheck(tier), agreeCheck("primitives/named-basic-types", namedContexts), agreeCheck("primitives/pointer-fields", pointerContexts))
 	_ = vivid.ErrorNotFound
 	return out
 }
